@@ -30,6 +30,23 @@ PROPS = {
                        "exception edges of its nested try blocks, and an agreement check over the SignalSlice "
                        "accessors.",
     },
+    "C03": {
+        "quick": ["R-FRESH", "R-LATCH", "R-UPDATE-BEFORE-SOLVE", "R-RESET", "R-EFF-RESP", "R-EFF-SELF"],
+        "thorough": ["R-LATCH-LDA"],
+        "technique": "static attribute def/use typestate (must/may-write over CFGs), dependence slices STRUCT/VALUE, dominance",
+        "claim": "Decides the cache-typestate clauses behind C03 for every Module subclass: every attribute a "
+                 "_sensitivity closure reads is configuration, written on every path of the _response closure, written "
+                 "under configuration-only tests, or lazily initialised; every lazily initialised attribute is classified "
+                 "by dependence on the inputs (none / structure / values) and value latches are reported (five are "
+                 "known findings: LinSolve and EigenSolve decide solver class and symmetry from the first matrix); a "
+                 "held solver is always updated with the current matrix before it solves; reset() clears every "
+                 "sensitivity on every path; _response leaves its inputs untouched and _sensitivity carries no state. "
+                 "Numerical equality 'to solver tolerance' is not decided.",
+        "explanation": "Per concrete class: backward must-write analysis over the CFGs of the _response closure (helper "
+                       "calls included), deciding tests per attribute, taint of lazily written values w.r.t. the "
+                       "response inputs with a structure-only filter (.shape/.dtype/len/issparse...), and dominance of "
+                       "solver.update over solver.solve with monotone-flag discharge.",
+    },
     "C04": {
         "quick": ["R-EFF-SEED", "R-EFF-STATE", "R-EFF-RESP", "R-EFF-SELF", "R-STATE-WRITERS"],
         "thorough": [],
